@@ -422,6 +422,29 @@ func (w *c05World) obs(keys []string, slots []int, deepOracle bool) {
 	w.c.res.OracleChecks++
 }
 
+// twinValue: the same value with every nested ordered map rebuilt separately, with another storage history
+// (a leading tombstone): equal contents, different representation.
+func twinValue(v any) any {
+	switch t := v.(type) {
+	case *ordered.MapSA:
+		if t == nil {
+			return t
+		}
+		out := ordered.NewMap[string, any](0)
+		out.Set("\x00junk", 0)
+		t.Range(func(k string, x any) error { out.Set(k, twinValue(x)); return nil })
+		out.Delete("\x00junk")
+		return out
+	case []any:
+		o := make([]any, len(t))
+		for i, x := range t {
+			o[i] = twinValue(x)
+		}
+		return o
+	}
+	return v
+}
+
 // deepOracle: JSON / YAML encodings keep order; equality against an independently built map.
 func (w *c05World) deepOracle(m *ordered.MapSA) {
 	// independently built map
@@ -435,6 +458,24 @@ func (w *c05World) deepOracle(m *ordered.MapSA) {
 		}
 		if !ordered.EqualSA(m, m) {
 			w.fail("Equal reflexive", "false", "true")
+		}
+		// the same keys, values and order, every nested ordered map built separately with another storage history
+		{
+			cp := ordered.NewMap[string, any](0)
+			nestedSeen := false
+			for _, kv := range w.ref {
+				tv := twinValue(kv.V)
+				if _, ok := tv.(*ordered.MapSA); ok {
+					nestedSeen = true
+				}
+				cp.Set(kv.K, tv)
+			}
+			if nestedSeen {
+				if !ordered.EqualSA(m, cp) || !ordered.EqualSA(cp, m) {
+					w.fail("Equal against a copy whose nested maps have the same contents but another storage history", "false", "true")
+				}
+				w.c.res.Hist("equal.nested-twin")
+			}
 		}
 		// a twin with the same contents and (when the deletes do not compact) the same number of
 		// storage slots, but its tombstones at other positions
@@ -451,7 +492,7 @@ func (w *c05World) deepOracle(m *ordered.MapSA) {
 				if at[pos] || li >= len(w.ref) {
 					twin.Set(fmt.Sprintf("\x00junk%d", pos), pos)
 				} else {
-					twin.Set(w.ref[li].K, w.ref[li].V)
+					twin.Set(w.ref[li].K, twinValue(w.ref[li].V))
 					li++
 				}
 			}
@@ -731,7 +772,7 @@ func c05Random(c *ctx, rng *core.Rand, nOps, alphabet int) *core.Session {
 	w := &c05World{c: c, sess: core.NewSession("c05"), saved: map[int]savedMap{}}
 	w.buildLibrary()
 	keys := make([]string, alphabet)
-	pool := []string{"", "<<", "1", "true", "~", "a b", "é", "k\n"}
+	pool := []string{"", "<<", "1", "true", "~", "a b", "é", "k\n", "bel\a", "nul\x00", "del\x7f", "tag\U000e0001", "vt\v", "q\"uote", "back\\slash"}
 	for i := range keys {
 		if i < len(pool) && alphabet > 8 {
 			keys[i] = pool[i]
@@ -753,7 +794,7 @@ func c05Random(c *ctx, rng *core.Rand, nOps, alphabet int) *core.Session {
 		case 3:
 			return []any{i, "x"}
 		case 4:
-			return ordered.MapFromItems(ordered.TupleSA{Key: "n", Value: i})
+			return ordered.MapFromItems(ordered.TupleSA{Key: "n", Value: i}, ordered.TupleSA{Key: "m", Value: "x"}, ordered.TupleSA{Key: "l", Value: []any{ordered.MapFromItems(ordered.TupleSA{Key: "p", Value: 1}, ordered.TupleSA{Key: "q", Value: 2})}})
 		default:
 			return i
 		}
